@@ -411,6 +411,61 @@ def validate_trace(ctx: Ctx, events, name="trace"):
     return reports[-1]["bad"]
 
 
+def broadcast_cases(fam, cases):
+    """Collections with different numbers of collection axes (trailing axes aligned, as numpy and the unchanged library do):
+    a one-axis collection (k,) against a three-axis collection (2, 2, k), in both argument orders, and a (k,) collection in
+    the middle of a three-argument call.  Every position of the result must be what the single objects at that position give
+    (the single-object calls are decided against the specification by single_cases)."""
+    op, dim, kinds = FAMS[fam]
+    g = import_geometer()
+    out = []
+    k = 3
+    gen = [c for c in cases if c["e"] == "none"]
+    for start in range(0, len(gen) - 5 * k, 5 * k):
+        chunk = gen[start:start + 5 * k]
+        small = [np.array(c["a"][0]) for c in chunk[:k]]                          # (k,) first arguments
+        big = np.array([c["a"][1] for c in chunk[k:5 * k]]).reshape(2, 2, k, -1)    # (2, 2, k) second arguments
+        rest = [np.array(chunk[0]["a"][i]) for i in range(2, len(kinds))]
+        site = f"{op}({','.join(kinds)})/{dim}D/collection/axes(1)x(3)"
+        case = {"first": [a.tolist() for a in small], "second": big.tolist()}
+        try:
+            A = build_coll(kinds[0], [a.tolist() for a in small])
+            B = build_coll(kinds[1], big.reshape(-1, big.shape[-1]).tolist(), shape=(2, 2, k))
+            R = [build(kk, v.tolist()) for kk, v in zip(kinds[2:], rest)]
+            for order, call in (("", lambda: _call(op, [A, B] + R)), ("/swapped", lambda: _call(op, [B, A] + R) if len(kinds) == 2 and kinds[0] == kinds[1] else None)):
+                res = call()
+                if res is None:
+                    continue
+                st, val = res
+                singles = {}
+                ok_all = True
+                for i in range(2):
+                    for j in range(2):
+                        for m in range(k):
+                            objs = [build(kinds[0], small[m].tolist()), build(kinds[1], big[i, j, m].tolist())] + R
+                            singles[(i, j, m)] = _call(op, objs if order == "" else [objs[1], objs[0]] + R)
+                            ok_all = ok_all and singles[(i, j, m)][0] == "ok"
+                if not ok_all:
+                    continue            # a dependent pair among the positions: covered by the mask checks of batch_cases
+                if st != "ok":
+                    out.append(dict(cls="raise-on-independent", site=site + order, stratum="general", case=case, expected="values", observed=f"raised {err_name(val)}: {val}"))
+                    continue
+                arr = np.asarray(coords_of(val))
+                if arr.shape[:3] != (2, 2, k):
+                    out.append(dict(cls="value", site=site + order, stratum="general", case=case, expected={"shape": [2, 2, k]}, observed={"shape": list(arr.shape)}))
+                    continue
+                for (i, j, m), (_, sv) in singles.items():
+                    if not same_class(arr[i, j, m].reshape(-1), np.asarray(coords_of(sv)).reshape(-1)):
+                        out.append(dict(cls="value", site=site + order, stratum="general", case={**case, "position": [i, j, m]},
+                                        expected=np.asarray(coords_of(sv)).tolist(), observed=arr[i, j, m].tolist()))
+                        break
+        except Exception as e:  # noqa: BLE001
+            out.append(dict(cls="value", site=site, stratum="general", case=case, expected="values", observed=f"raised {type(e).__name__}: {e}"))
+        if start > 40 * 5 * k:
+            break
+    return out
+
+
 def complex_cases(recs):
     """C01_Complex.tla: Gaussian-integer points / lines / planes; all API forms of the same multilinear operation."""
     g = import_geometer()
@@ -477,6 +532,8 @@ def _work(job):
             return complex_cases(job[1])
         if kind == "far":
             return far_cases(job[1], job[2])
+        if kind == "bcast":
+            return broadcast_cases(job[1], job[2])
     except Exception as e:  # noqa: BLE001  -- a bug of the harness, not a verdict
         import traceback
 
@@ -540,6 +597,8 @@ def run(ctx: Ctx) -> int:
                 jobs.append(("single", f, same[i:i + 400], ("same-object",)))
         for i in range(0, len(gsel), 400):
             jobs.append(("single", f, gsel[i:i + 400], tuple(variants)))
+        if f in ("j2pp", "m2ll", "j3pp", "m3ee", "j3ppp", "m3eee", "j3lp", "m3le") and prop == "C01":
+            jobs.append(("bcast", f, gsel[:700]))
         if f in ("j2pp", "m2ll", "j3ppp", "m3eee") and prop == "C01":
             for i in range(0, len(gsel), 400):
                 jobs.append(("far", f, gsel[i:i + 400]))
@@ -620,7 +679,7 @@ def run(ctx: Ctx) -> int:
                 if inscope:
                     ctx.mismatch(m["site"], m["stratum"], m["case"], m["expected"], m["observed"], m["cls"])
             continue
-        if job[0] == "far":
+        if job[0] in ("far", "bcast"):
             nrep += len(job[2])
             for m in res:
                 if m["cls"] == "machinery":
